@@ -77,6 +77,7 @@ type SpecFunc struct {
 }
 
 type Pred struct {
+	Opaque bool
 	Name   string
 	Params []SParam
 	Body   SExpr
@@ -266,7 +267,15 @@ func (cs *ContractSet) LoadFile(path, defaultPkg string) {
 			sf.File, sf.Line = path, rc.line
 			cs.SpecFuncs[sf.Name] = sf
 		case kw == "pred":
+			predOpaque := false
+			if strings.HasPrefix(rest, "opaque ") {
+				predOpaque = true
+				rest = strings.TrimSpace(rest[7:])
+			}
 			p, err := parsePredDecl(rest)
+			if p != nil {
+				p.Opaque = predOpaque
+			}
 			if err != nil {
 				fail(rc.line, "%v", err)
 				continue
